@@ -45,7 +45,9 @@ func (s *JumpMark) Process(ctx context.Context, man gdbi.Manager, in gdbi.InPipe
 				}
 				// jumps that are ahead of a mark can close before the mark
 				// gets the close
-				for _, i := range closeList {
+				// remove from the back so that the remaining indices stay valid
+				for k := len(closeList) - 1; k >= 0; k-- {
+					i := closeList[k]
 					s.inputs = append(s.inputs[:i], s.inputs[i+1:]...)
 				}
 				if len(closeList) > 0 {
@@ -111,7 +113,9 @@ func (s *JumpMark) Process(ctx context.Context, man gdbi.Manager, in gdbi.InPipe
 					time.Sleep(time.Microsecond)
 				}
 			}
-			for _, i := range closeList {
+			// remove from the back so that the remaining indices stay valid
+			for k := len(closeList) - 1; k >= 0; k-- {
+				i := closeList[k]
 				s.inputs = append(s.inputs[:i], s.inputs[i+1:]...)
 			}
 			if len(closeList) > 0 {
